@@ -124,11 +124,15 @@ async def play_asgi(sc, order, timing):
     return results, values, calls[0], full
 
 
-def play_wsgi(sc):
+def play_wsgi(sc, deliver=None, extra=b""):
+    """deliver: the pieces wsgi.input really holds (None: the whole body); extra: bytes of a following request on the same connection"""
     from baize.wsgi import Request
     full = b"".join(chunks_of(sc))
-    r = servers.Req(method="POST", headers=[("Content-Type", BODIES[sc["ctype"]][2]), ("Content-Length", str(len(full)))], chunks=chunks_of(sc))
+    pieces = chunks_of(sc) if deliver is None else deliver
+    r = servers.Req(method="POST", headers=[("Content-Type", BODIES[sc["ctype"]][2]), ("Content-Length", str(len(full)))],
+                    chunks=list(pieces) + ([extra] if extra else []))
     env = servers.make_environ(r)
+    play_wsgi.last_input = env["wsgi.input"]
     req = Request(env)
     res, vals = [], []
     for op in sc["progs"][0]:
@@ -256,6 +260,39 @@ def run(ctx):
                 ctx.nontriv((iface, str(order), timing) + tuple(sorted((k, str(v)) for k, v in sc.items())))
             if n in (10, 2000):
                 ctx.sample({"case": case, "observed": obs, "admissible": len(ok_vecs)})
+    # WSGI has no disconnect event: a client that goes away shows as wsgi.input ending before CONTENT_LENGTH bytes were read,
+    # and a connection that is kept open holds more than CONTENT_LENGTH bytes.  Neither may change what the accessors return.
+    for sc in scs:
+        if len(sc["progs"]) != 1 or sc["atomic"]:
+            continue
+        full = b"".join(chunks_of(sc))
+        cases = []
+        if sc["discAt"]:
+            cases.append(("input ends early", chunks_of(sc)[:sc["discAt"] - 1] + ([] if sc["discAt"] > 1 else []), b""))
+            cases.append(("input ends inside the last piece", [full[:len(full) - 3]], b""))
+        else:
+            cases.append(("connection holds a following request", None, b"GET /next HTTP/1.1\r\n\r\n"))
+        for label, deliver, extra in cases:
+            results, values, _, _ = play_wsgi(sc, deliver, extra)
+            ctx.count()
+            case = {"iface": "wsgi", "ctype": sc["ctype"], "program": list(sc["progs"][0]), "input": label,
+                    "content_length": len(full), "bytes_available": len(b"".join(deliver)) if deliver is not None else len(full) + len(extra)}
+            bad = None
+            for op, res, v in zip(sc["progs"][0], results[0], values[0]):
+                if res == "ok" and op in ("body", "stream") and v != full:
+                    bad = "%s returned %d bytes for a request body of %d bytes (%s)" % (op, len(v), len(full), label)
+                elif res == "ok" and op in ("json", "form") and deliver is not None:
+                    bad = "%s returned a value parsed from a truncated body" % op
+                elif res not in ("ok", "HTTPError", "RuntimeError"):
+                    bad = "an accessor raised %s" % res
+            if extra and not bad:
+                inp = play_wsgi.last_input
+                left = inp.rest + b"".join(inp.chunks)
+                if any(op in ("body", "stream", "json", "form") for op in sc["progs"][0]) and not left.endswith(extra):
+                    bad = "the request object read beyond CONTENT_LENGTH into the following request"
+            if bad:
+                ctx.violation(case, "the whole body or an error, nothing beyond CONTENT_LENGTH", {"results": results[0]}, bad)
+            ctx.nontriv(("wsgi-len", label) + tuple(sorted((k, str(v)) for k, v in sc.items())))
     ctx.exhaustive = True
 
 
